@@ -1,4 +1,44 @@
-(* C19 placeholder: theorems are added in PreflibProof.v *)
-From SCK Require Import Preflib.
-Theorem C19_placeholder : True. Proof. exact I. Qed.
-Print Assumptions C19_placeholder.
+(* C19 — PrefLib instances are converted faithfully. Statements only.
+   Model Preflib.v: an instance is its list of (order, multiplicity), an order being the list of indifference
+   classes (lists of 1-based alternative numbers) in the iteration order of the library's own parsed structure;
+   col a = a - 1 is the column of alternative a. wf_order: alternatives lie in 1..m and none is listed twice. *)
+From Coq Require Import Arith ZArith List Bool Lia.
+Import ListNotations.
+From SCK Require Import Preflib PreflibProof.
+Local Open Scope Z_scope.
+
+(* one row per voter: the number of rows is the sum of the multiplicities ... *)
+Theorem C19_one_row_per_voter : forall k pol m votes,
+  length (convert k pol m votes) = fold_right (fun v acc => (snd v + acc)%nat) 0%nat votes.
+Proof. exact convert_length. Qed.
+Print Assumptions C19_one_row_per_voter.
+(* ... each distinct order contributes its row as often as its multiplicity, consecutively, in the order of the votes *)
+Theorem C19_rows_repeated_by_multiplicity : forall k pol m votes,
+  convert k pol m votes = concat (map (fun v => repeat (row_of k pol m (fst v)) (snd v)) votes).
+Proof. exact convert_blocks. Qed.
+Print Assumptions C19_rows_repeated_by_multiplicity.
+
+(* ToC / ToI / categorical: an alternative listed in the c-th class gets 1 + (number of alternatives in earlier
+   classes) under 'accept', plus its index inside the class sorted by alternative number under 'first' *)
+Theorem C19_listed_alternative_gets_its_position : forall k pol m order c cls a,
+  weak_kind k = true -> wf_order m order -> nth_error order c = Some cls -> In a cls ->
+  nth (col a) (row_of k pol m order) None = Some (1 + before order c + offset pol cls a).
+Proof. exact row_listed. Qed.
+Print Assumptions C19_listed_alternative_gets_its_position.
+(* alternatives the voter did not list are NaN (incomplete kinds) *)
+Theorem C19_unlisted_alternative_is_nan : forall k pol m order a,
+  weak_kind k = true -> wf_order m order -> 1 <= a <= Z.of_nat m -> (forall cls, In cls order -> ~ In a cls) ->
+  nth (col a) (row_of k pol m order) None = match k with TOC => Some 0 | _ => None end.
+Proof. exact row_unlisted. Qed.
+Print Assumptions C19_unlisted_alternative_is_nan.
+(* SoC / SoI: the entry of the alternative at place c (0-based) of the strict order is c + 1 *)
+Theorem C19_strict_order_positions : forall k m order c a,
+  (k = SOC \/ k = SOI) -> (forall cls, In cls order -> exists b, cls = [b]) -> wf_order m order ->
+  nth_error order c = Some [a] -> nth (col a) (row_of k Accept m order) None = Some (1 + Z.of_nat c).
+Proof. exact row_strict_position. Qed.
+Print Assumptions C19_strict_order_positions.
+(* an instance of another data type is rejected *)
+Theorem C19_wrong_type_rejected : forall want actual pol m votes,
+  kind_eqb want actual = false -> convert_checked want actual pol m votes = None.
+Proof. intros want actual pol m votes H. unfold convert_checked. rewrite H. reflexivity. Qed.
+Print Assumptions C19_wrong_type_rejected.
